@@ -244,6 +244,9 @@ def main(tier="quick"):
         if tier != "quick":
             for pre in itertools.product(HIST, repeat=3):
                 hists.append(list(pre))
+        # "-r any number of times": long re-run histories in one build tree (six and seven invocations)
+        for h in (["c", "r-d-o", "r-d2-o2", "r-d-o", "r-d2-o2", "r"], ["full", "r", "r", "r-d-o", "r", "r-d2-o2", "r"], ["full", "full", "r", "c", "r", "r", "r"]):
+            hists.append(h)
         for h in hists:
             work.append((backend, files, h, "last" if tier == "quick" else "any"))
     res = par.pmap(explore, work)
